@@ -34,52 +34,6 @@ open EPV EPV.Gen EPV.Sedov
 
 namespace EPV.C20
 
-/-- the documented admissible domain of the Sedov constructor -/
-structure SedovDocumented (p : SedovInit.P) : Prop where
-  geo : p.geometry = 1 ∨ p.geometry = 2 ∨ p.geometry = 3
-  gamma : 1 < p.gamma
-  rho0 : 0 < p.rho0
-  eblast : 0 < p.eblast
-  omega0 : 0 ≤ p.omega
-  omegak : p.omega < p.geometry
-
-/-- the six checks in the order the code makes them: a failed check raises ValueError -/
-theorem sedov_not_accepted_raises (p : SedovInit.P) (hA : ¬ Accepted p) :
-    SedovInit.outcome p = .raise "ValueError" := by
-  have key : ∀ hg : p.geometry = 1 ∨ p.geometry = 2 ∨ p.geometry = 3,
-      SedovInit.c1 p ∨ SedovInit.c4 p ∨ SedovInit.c5 p ∨ SedovInit.c6 p ∨ SedovInit.c7 p := by
-    intro hg
-    by_contra hne
-    simp only [not_or] at hne
-    exact hA ⟨hg, hne.1, hne.2.1, hne.2.2.1, hne.2.2.2.1, hne.2.2.2.2⟩
-  have checks : ∀ {X Y : EPV.Out}, (SedovInit.c1 p ∨ SedovInit.c4 p ∨ SedovInit.c5 p ∨ SedovInit.c6 p ∨ SedovInit.c7 p) →
-      (if SedovInit.c1 p then EPV.Out.raise "ValueError" else if SedovInit.c4 p then EPV.Out.raise "ValueError"
-        else if SedovInit.c5 p then EPV.Out.raise "ValueError" else if SedovInit.c6 p then EPV.Out.raise "ValueError"
-        else if SedovInit.c7 p then EPV.Out.raise "ValueError" else X) = EPV.Out.raise "ValueError" := by
-    intro X Y h
-    split_ifs <;> first | rfl | (exfalso; tauto)
-  by_cases hc0 : SedovInit.c0 p
-  · simp only [SedovInit.outcome, hc0, if_true]
-    exact checks (Y := .ok) (key (Or.inl hc0))
-  · by_cases hc2 : SedovInit.c2 p
-    · simp only [SedovInit.outcome, hc0, hc2, if_true, if_false]
-      exact checks (Y := .ok) (key (Or.inr (Or.inl hc2)))
-    · by_cases hc3 : SedovInit.c3 p
-      · simp only [SedovInit.outcome, hc0, hc2, hc3, if_true, if_false]
-        exact checks (Y := .ok) (key (Or.inr (Or.inr hc3)))
-      · simp only [SedovInit.outcome, hc0, hc2, hc3, if_false]
-
-/-- the six checks passed: the constructor returns normally (the three `raise AttributeError`
-leaves of the traced tree — solution_type never assigned — are unreachable for real numbers) -/
-theorem sedov_accepted_ok (p : SedovInit.P) (A : Accepted p) : SedovInit.outcome p = .ok := by
-  init_cases A p on SedovInit.outcome with
-    first
-    | rfl
-    | (exfalso
-       have h8 : ¬ SedovInit.c8 p := by assumption
-       simp only [epv_cond, not_le, not_lt] at *
-       rcases lt_abs.mp h8 with hh | hh <;> linarith)
-
 /-- the traced constructor returns normally iff the six checks pass -/
 theorem sedov_accepts_iff (p : SedovInit.P) : SedovInit.outcome p = .ok ↔ Accepted p := by
   constructor
@@ -97,14 +51,12 @@ theorem sedov_rejects_with_valueerror (p : SedovInit.P) :
   · exact Or.inr (sedov_not_accepted_raises p A)
 
 /-- no false rejections: every documented-valid problem is accepted -/
-theorem sedov_documented_accepted (p : SedovInit.P) (D : SedovDocumented p) : SedovInit.outcome p = .ok := by
-  rw [sedov_accepts_iff]
-  exact ⟨D.geo, not_lt.mpr D.gamma.le, not_lt.mpr D.rho0.le, not_lt.mpr D.eblast.le, not_lt.mpr D.omega0,
-    not_le.mpr D.omegak⟩
+theorem sedov_documented_accepted (p : SedovInit.P) (D : Documented p) : SedovInit.outcome p = .ok := by
+  exact sedov_accepted_ok p D.accepted
 
 /-- the accepted-but-undocumented inputs are exactly the boundary slips γ = 1, ρ₀ = 0, E = 0 -/
 theorem sedov_accepted_undocumented_iff (p : SedovInit.P) :
-    (SedovInit.outcome p = .ok ∧ ¬ SedovDocumented p)
+    (SedovInit.outcome p = .ok ∧ ¬ Documented p)
       ↔ (Accepted p ∧ (p.gamma = 1 ∨ p.rho0 = 0 ∨ p.eblast = 0)) := by
   rw [sedov_accepts_iff]
   constructor
@@ -122,7 +74,7 @@ theorem sedov_accepted_undocumented_iff (p : SedovInit.P) :
 
 /-- on the documented domain the constructor's divisions are by non-zero numbers, except the
 denominator of `d_val`, which vanishes exactly at the singular ω (v2 = vstar) -/
-theorem sedov_documented_no_zero_division (p : SedovInit.P) (D : SedovDocumented p) :
+theorem sedov_documented_no_zero_division (p : SedovInit.P) (D : Documented p) :
     p.gamma - 1 ≠ 0 ∧ (p.geometry + 2 - p.omega) * (p.gamma + 1) ≠ 0 ∧ (p.gamma - 1) * p.geometry + 2 ≠ 0
       ∧ p.geometry ≠ 0
       ∧ ((p.geometry + 2 - p.omega) * (p.gamma + 1) - 2 * (2 + p.geometry * (p.gamma - 1)) = 0
@@ -137,7 +89,7 @@ theorem sedov_documented_no_zero_division (p : SedovInit.P) (D : SedovDocumented
   constructor <;> intro h <;> linarith
 
 /-- non-vacuity: the defaults are documented-valid -/
-example : SedovDocumented ⟨851072/1000000, 1, 1, 7/5, 3, 0, 1⟩ :=
+example : Documented ⟨851072/1000000, 1, 1, 7/5, 3, 0, 1⟩ :=
   ⟨Or.inr (Or.inr rfl), by norm_num, by norm_num, by norm_num, by norm_num, by norm_num⟩
 
 end EPV.C20
